@@ -254,25 +254,34 @@ def inheritCounters (parent : CSet) (sibling : CSet) (source : CSet) : CSet :=
     | some k => { x with value := k.value }
     | none => x
 
-/-- index of the last counter with the name -/
-def lastIdx (s : CSet) (name : String) : Option Nat :=
-  (s.zipIdx.filter (fun p => p.1.name = name)).getLast?.map (·.2)
+/-- is there a counter of that name in the set -/
+def hasNamed (s : CSet) (name : String) : Bool := s.any (fun k => k.name = name)
 
-/-- §4.4.2 instantiate a counter -/
+/-- remove the innermost (last) counter of that name if `p` holds of it -/
+def dropInnermostIf (name : String) (p : Ctr → Bool) : CSet → CSet
+  | [] => []
+  | k :: rest =>
+    if k.name = name ∧ hasNamed rest name = false then (if p k then rest else k :: rest)
+    else k :: dropInnermostIf name p rest
+
+/-- apply `f` to the value of the innermost (last) counter of that name -/
+def modifyInnermost (name : String) (f : Int → Int) : CSet → CSet
+  | [] => []
+  | k :: rest =>
+    if k.name = name ∧ hasNamed rest name = false then { k with value := f k.value } :: rest
+    else k :: modifyInnermost name f rest
+
+/-- §4.4.2 instantiate a counter: "let innermost counter be the last counter in counters with the
+    name; if its originating element is element or a previous sibling of element, remove it; append a
+    new counter with the name, originating element element and the initial value" -/
 def instantiate (s : CSet) (self : Nat) (sibs : List Nat) (name : String) (v : Int) : CSet :=
-  let s := match lastIdx s name with
-    | some i => match s[i]? with
-      | some k => if k.creator = self ∨ sibs.contains k.creator then s.eraseIdx i else s
-      | none => s
-    | none => s
-  s ++ [⟨name, self, v⟩]
+  dropInnermostIf name (fun k => (self :: sibs).contains k.creator) s ++ [⟨name, self, v⟩]
 
-/-- counter-increment / counter-set on the innermost counter of the name, instantiating it at 0 first -/
-def touch (s : CSet) (self : Nat) (sibs : List Nat) (name : String) (f : Int → Int) : CSet :=
-  let s := if (lastIdx s name).isNone then instantiate s self sibs name 0 else s
-  match lastIdx s name with
-  | some i => s.modify i (fun k => { k with value := f k.value })
-  | none => s
+/-- counter-increment / counter-set: on the innermost counter of the name; "if there is not currently a
+    counter of the given name on the element, instantiate a new counter with a starting value of 0
+    before setting or incrementing its value" -/
+def touch (s : CSet) (self : Nat) (_sibs : List Nat) (name : String) (f : Int → Int) : CSet :=
+  if hasNamed s name then modifyInnermost name f s else s ++ [⟨name, self, f 0⟩]
 
 /-- the order of CSS Lists 3 §4: reset, increment, set.  `setFirst = true` is the variant "reset, set,
     increment" (what the code does); it is only used to name the deviation precisely. -/
